@@ -30,6 +30,8 @@ mod byte_arena;
 mod global_deque;
 mod implementation;
 mod ioslice;
+#[cfg(woodpile_verif)]
+pub mod verif;
 
 pub use byte_arena::AnchoredSlice;
 pub use byte_arena::ByteArena;
